@@ -142,3 +142,15 @@ CLAIMED["C18"] = ("edge-cut must-pass-through + provenance of the selection/fee 
   "numeric exactness of selection under every fee/amount combination is arithmetic over runtime multisets and is not decided; these are "
   "necessary structural conditions of it.",
   TRUST, "DESIGN.md §3 C18")
+CLAIMED["C07"] = ("effect-graph extraction from the SSA CFG (outcome-split edge cuts, helper inlining, constant pruning) + abstract interpretation of the graph over a finite store with crash/fault invariants; SQL reader for the model assumptions",
+  "Decides, for every mint operation (swap, mint, mint-quote poll, melt with every Lightning outcome, melt-quote poll, keyset rotation), every "
+  "position between two storage/Lightning calls and every storage call failing instead: the abstract persistent store {inputs spent, inputs "
+  "locked, signatures saved, quote states, payment status, active keysets} that a restart would find satisfies the safety invariants "
+  "(signatures saved => inputs spent / quote ISSUED; payment possibly in flight => inputs locked or spent; release / UNPAID only after a "
+  "definitive failure; one active keyset) and the recoverability invariants (spent => signatures saved; ISSUED => signatures saved; quote not "
+  "left PENDING; locked and unpaid => quote PENDING). The store transitions are read from the SQL of the storage methods and the constant "
+  "arguments of the calls; the assumptions 'one storage call = one transaction' and 'state updates are unconditional' are checked on the "
+  "storage code. Right level: the set of effect sequences and their prefixes is a finite object visible in the code; SQLite's physical "
+  "durability, the restart code path itself and the adversarial follow-up are not decided. Windows present on the reference tree are genuine "
+  "and listed as known findings (D15a-h).",
+  TRUST, "DESIGN.md §3 C07")
